@@ -10,4 +10,4 @@ python3 /verif/tools/gen_all.py >/dev/null 2>&1 || true
 [ -f Makefile ] || coq_makefile -f _CoqProject -o Makefile
 make -j16 >/dev/null 2>&1
 mods=$(ls *.vo Gen/*.vo | sed 's/\.vo$//; s#^Gen/#Gen.#; s/^/Verif./' | tr '\n' ' ')
-timeout 7200 coqchk -silent -o -Q . Verif $mods | tee /verif/coqchk.log
+timeout 7200 coqchk -silent -o -Q . Verif $mods 2>&1 | tee /verif/coqchk.log
